@@ -201,6 +201,48 @@ pub fn make_golden(out: &str) -> Value {
     json!({"geom_entries": ng, "lookup_entries": nl, "skipped_within_2e-5rad_of_pole": skipped_polar, "skipped_not_deep_in_reference": skipped_shallow})
 }
 
+/// second golden table: lookups in the neighbourhood of the special points of the frame (face centres, vertices, edge
+/// midpoints, points along the 30 seams, poles, round coordinates), where face selection, reflection and quintant
+/// choice switch.  Same rule: only answers of the reference that contain the point deeply are pinned.
+pub fn make_golden_special(out: &str) -> Value {
+    use std::io::Write;
+    let mut rng = Rng::new(0x601de3);
+    std::fs::create_dir_all(out).unwrap();
+    let mut lookf = std::io::BufWriter::new(std::fs::File::create(format!("{}/lookup_special.ndjson", out)).unwrap());
+    let mut base: Vec<LonLat> = crate::geo::special_points();
+    for id in all_cells(0) {
+        if let Some(ring) = crate::geo::ring_ll_pub(id, 2) {
+            let n = ring.len();
+            for k in 0..n { for t in [0.3, 0.6, 0.9] { base.push(towards(ring[k], ring[(k + 1) % n], t)); } }
+        }
+    }
+    // dedupe (rings of neighbouring faces share their points)
+    let mut seen = std::collections::HashSet::new();
+    base.retain(|p| seen.insert(((p.longitude() * 1e6).round() as i64, (p.latitude() * 1e6).round() as i64)));
+    let (mut nl, mut skipped) = (0u64, 0u64);
+    for sp in &base {
+        let coslat = (sp.latitude() * DEG).cos().max(1e-3);
+        for dir in 0..6 {
+            let a = dir as f64 * 1.0472 + rng.f64();
+            for d in [1e-7, 3e-5, 1e-4, 1e-3] {
+                let dd = d / DEG * (0.7 + 0.6 * rng.f64());
+                let lat = sp.latitude() + dd * a.sin();
+                if lat.abs() > 89.9 { continue; }
+                let p = LonLat::new(sp.longitude() + dd * a.cos() / coslat, lat);
+                for res in [0, 1, 2, 4, 8, 14, 21, 29] {
+                    if let Ok(ans) = a5::lonlat_to_cell(p, res) {
+                        let deep = match (deserialize(ans), ring_oracle(ans)) { (Ok(cell), Some(o)) => { let (cl, pm, rm) = classify(ans, &cell, p, &o);
+                            cl == "deep" && pm > 1e-9_f64.max(1e-3 * cell_size(res)) && rm > 1e-9_f64.max(1e-3 * cell_size(res)) } _ => false };
+                        if deep { writeln!(lookf, "{}", json!({"p": [fstr(p.longitude()), fstr(p.latitude())], "res": res, "id": format!("{:x}", ans)})).unwrap(); nl += 1; }
+                        else { skipped += 1; }
+                    }
+                }
+            }
+        }
+    }
+    json!({"base_points": base.len(), "lookup_entries": nl, "skipped_not_deep_in_reference": skipped})
+}
+
 pub fn gen_c06(tier: &str, seed: u64, out: &str, golden: &str) -> Value {
     let mut t = Trace::new(out, "c06", 250);
     // discrete pins: curve walk, relabelling tables
@@ -234,7 +276,8 @@ pub fn gen_c06(tier: &str, seed: u64, out: &str, golden: &str) -> Value {
             t.cut();
         }
     }
-    if let Ok(txt) = std::fs::read_to_string(format!("{}/lookup.ndjson", golden)) {
+    for (file, stride) in [("lookup.ndjson", stride), ("lookup_special.ndjson", if tier == "thorough" { 1 } else { 4 })] {
+      if let Ok(txt) = std::fs::read_to_string(format!("{}/{}", golden, file)) {
         for (i, line) in txt.lines().enumerate() {
             if i % stride != 0 { continue; }
             let v: Value = match serde_json::from_str(line) { Ok(v) => v, Err(_) => continue };
@@ -246,6 +289,7 @@ pub fn gen_c06(tier: &str, seed: u64, out: &str, golden: &str) -> Value {
             nl += 1;
             t.cut();
         }
+      }
     }
     t.finish();
     files.extend(t.files.iter().cloned());
